@@ -43,15 +43,16 @@ fn spec_delta(b: &[u8], want: usize) -> Option<i32> {
     None
 }
 
-// @bound 4 symbolic bytes (symbolic length), destination of <= 2 deltas: never panics (a run longer than the destination, a truncated run and an empty buffer are errors); unwind 6
+// @bound 3 symbolic bytes (symbolic length), destination of <= 2 deltas: never panics (a run longer than the destination, a truncated run and an empty buffer are errors); unwind 5
 // @c01
 // @c20
+// @timeout 420
 #[cfg_attr(kani, kani::proof)]
-#[cfg_attr(kani, kani::unwind(6))]
+#[cfg_attr(kani, kani::unwind(5))]
 pub fn c10_read_dense_deltas_total() {
-    let buf: [u8; 4] = kani::any();
+    let buf: [u8; 3] = kani::any();
     let len: usize = kani::any();
-    kani::assume(len <= 4);
+    kani::assume(len <= 3);
     let n: usize = kani::any();
     kani::assume(n <= 2);
     let mut dest = [0i32; 2];
